@@ -4,22 +4,23 @@ from obligations import obl
 from harness import o_hydroalg as H
 
 M = 'EPV.Props.C08.Hydro'
+F = 'EPV.Props.C08.Finding'       # one module per defect: a repair breaks only its own module
 T = 'EPV.C08.'
 _o = [obl('C08.noh.units', M, [T + 'noh_units', T + 'noh_units_admissible'], ['Noh'], H.units_oracle['Noh'])]
 for n in (1, 2, 3, 4, 5, 6, 8, 9, 11, 12, 18, 19, 21):
     _o.append(obl('C08.cog%d.units' % n, M, [T + 'cog%d_units' % n], ['Cog%d' % n], H.units_oracle['Cog%d' % n]))
 _o += [
     # the part that holds, and the defect, for the solvers that are NOT covariant as they stand
-    obl('C08.noh2.units', M, [T + 'noh2_units_partial'], ['Noh2'], H.units_oracle['Noh2']),
-    obl('C08.noh2.time_unit', M, [T + 'finding_noh2_time_unit'], ['Noh2'], H.noh2_time_unit, finding=True),
-    obl('C08.noh2cog.units', M, [T + 'noh2cog_units_partial'], ['Noh2Cog'], H.units_oracle['Noh2Cog']),
-    obl('C08.noh2cog.time_unit', M, [T + 'finding_noh2cog_time_unit'], ['Noh2Cog'], H.noh2cog_time_unit, finding=True),
-    obl('C08.cog7.units', M, [T + 'cog7_units_partial', T + 'cog7_density_dimension', T + 'cog7_pressure_dimension',
+    obl('C08.noh2.units', F + 'Noh2', [T + 'noh2_units_partial'], ['Noh2'], H.units_oracle['Noh2']),
+    obl('C08.noh2.time_unit', F + 'Noh2', [T + 'finding_noh2_time_unit'], ['Noh2'], H.noh2_time_unit, finding=True),
+    obl('C08.noh2cog.units', F + 'Noh2', [T + 'noh2cog_units_partial'], ['Noh2Cog'], H.units_oracle['Noh2Cog']),
+    obl('C08.noh2cog.time_unit', F + 'Noh2', [T + 'finding_noh2cog_time_unit'], ['Noh2Cog'], H.noh2cog_time_unit, finding=True),
+    obl('C08.cog7.units', F + 'Cog7', [T + 'cog7_units_partial', T + 'cog7_density_dimension', T + 'cog7_pressure_dimension',
                               T + 'cog7RhoT_values', T + 'cog7_factor_tied'], ['Cog7'], H.units_oracle['Cog7']),
-    obl('C08.cog7.mass_unit', M, [T + 'finding_cog7_no_mass_scale'], ['Cog7'], H.cog7_mass_unit, finding=True),
-    obl('C08.cog20.units', M, [T + 'cog20_units_partial'], ['Cog20'], H.units_oracle['Cog20']),
-    obl('C08.cog20.shock_position', M, [T + 'finding_cog20_shock_position'], ['Cog20'], H.cog20_shock_position, finding=True),
-    obl('C08.cog3.documented_dimensions', M, [T + 'finding_cog3_documented_dimensions'], ['Cog3'],
+    obl('C08.cog7.mass_unit', F + 'Cog7', [T + 'finding_cog7_no_mass_scale'], ['Cog7'], H.cog7_mass_unit, finding=True),
+    obl('C08.cog20.units', F + 'Cog20', [T + 'cog20_units_partial'], ['Cog20'], H.units_oracle['Cog20']),
+    obl('C08.cog20.shock_position', F + 'Cog20', [T + 'finding_cog20_shock_position'], ['Cog20'], H.cog20_shock_position, finding=True),
+    obl('C08.cog3.documented_dimensions', F + 'Cog3', [T + 'finding_cog3_documented_dimensions'], ['Cog3'],
         H.cog3_documented_dimensions, finding=True),
 ]
 PROP = dict(
